@@ -97,8 +97,9 @@ def _window(r, frames, lo, hi):
     return frames[i:i + m]
 
 
-def targeted(frame: str, r) -> str | None:
-    """Extreme-but-legal edits the statement names: zero/max countdowns, sentinels, max indexes, re-zoning."""
+def targeted(frame: str, r, roles: dict | None = None) -> str | None:
+    """Extreme-but-legal edits the statement names: zero/max countdowns, sentinels, max indexes, re-zoning.
+    roles: device ids the history itself names in a system-level role (appliance control, DHW sensor / valves)."""
     code, verb = frame[37:41], frame[:2]
     ln = frame[42:45]
     pl = frame[46:]
@@ -120,6 +121,8 @@ def targeted(frame: str, r) -> str | None:
         d = r.choice(["04:111111", "13:111112", "34:111113", "01:145038", "07:111114", "10:111115", "04:111116", frame[7:16], frame[7:16]])
         if pl[2:4] == "04" and r.random() < 0.6:
             d = frame[7:16]  # the controller itself as the zone's sensor (legal for one zone)
+        elif roles and r.random() < 0.5:  # a device that already has a system-level role is named in another role / zone
+            d = r.choice(sorted(roles))
         t, n = d.split(":")
         q = pl[:6] + f"{(int(t) << 18) + int(n):06X}" + pl[12:]
         return f"{frame[:46]}{q}"
@@ -162,8 +165,30 @@ def build_history(r, k: dict, *, n_lo=30, n_hi=220) -> list[dict]:
     def c(name):
         cnt[name] = cnt.get(name, 0) + 1
 
+    roles: dict[str, str] = {}  # devices the history names as appliance control / DHW sensor / DHW valves (000C roles 0F, 0D, 0E)
+    for _d, f, _s in rows:
+        if f[37:41] == "000C" and f[:2] == "RP" and len(f) >= 58 and f[48:50] in ("0D", "0E", "0F") and f[52:58] != "FFFFFF":
+            try:
+                v = int(f[52:58], 16)
+                roles[f"{v >> 18:02d}:{v & 0x3FFFF:06d}"] = f[48:50]
+            except ValueError:
+                pass
+    p_alien = k.get("p_alien", 0.0)
     p_nb = k.get("p_neighbour", 0.0)
     for dtm, f, src in rows:
+        if p_alien and r.random() < p_alien:
+            # a neighbour's kit of another make: a structurally valid frame with a code this library has never heard of, arriving
+            # in the same read as the next frame ("glue")
+            while True:
+                code = f"{r.randrange(0x0001, 0x7FFF):04X}"
+                if code not in CODES_SCHEMA:
+                    break
+            dev = f"{r.choice(['32', '37', '29', '20'])}:{r.randrange(199000, 199999):06d}"
+            n = r.choice([1, 2, 3, 8, 22])
+            q = "".join(f"{r.randrange(256):02X}" for _ in range(n))
+            shape = r.choice([f" I --- {dev} --:------ {dev}", f" I --- {dev} 63:262142 --:------", f"RP --- {dev} 32:199998 --:------"])
+            seq.append((dtm, f"{shape} {code} {n:03d} {q}", 2))
+            c("hist_alien_code")
         if r.random() < p_del:
             c("hist_delete")
             continue
@@ -183,13 +208,17 @@ def build_history(r, k: dict, *, n_lo=30, n_hi=220) -> list[dict]:
             seq.append((dtm, f"{f[:7]}{nb} --:------ {nb} {code} {len(q) // 2:03d} {q}", 1))
             c("hist_neighbour_array")
         if r.random() < p_tgt:
-            g = targeted(f, r)
+            g = targeted(f, r, roles)
             if g is not None:
+                if g[37:41] in ("000C", "0005") or (g[37:41] in ZONE_CODES and g[46:48] != f[46:48]):
+                    c("hist_topology_edit")  # the edit changes what the history says about who is where
                 f = g
                 c("hist_targeted_extreme")
         elif r.random() < p_mut:
             g = gen.mutate_field("045 " + f, r, CODES_SCHEMA)
             if g is not None:
+                if f[37:41] in ("000C", "0005"):
+                    c("hist_topology_edit")
                 f = g[4:]
                 c("hist_field_mutation")
         seq.append((dtm, f, src))
@@ -214,7 +243,7 @@ def build_history(r, k: dict, *, n_lo=30, n_hi=220) -> list[dict]:
                 gap = min(s - prev, k.get("gap_cap", 30.0))
             prev = s
             gap = max(gap, 0.004)
-        ops.append({"op": "rx", "f": f, "gap": round(gap, 3)} | ({"src": 1} if src else {}))
+        ops.append({"op": "rx", "f": f, "gap": round(gap, 3)} | ({"src": 1} if src else {}) | ({"glue": 1} if src == 2 else {}))
     return ops
 
 
@@ -313,6 +342,7 @@ def generate(plan) -> None:
     else:
         k.update({"p_del": r.choice([0.0, 0.05, 0.3]), "p_dup": r.choice([0.0, 0.05, 0.2]), "p_swap": r.choice([0.0, 0.1, 0.3]),
                   "p_mut": r.choice([0.0, 0.05, 0.25]), "p_tgt": r.choice([0.0, 0.03, 0.15]), "p_splice": 0.45})
+    k["p_alien"] = 0.0 if ff else r.choice([0.0, 0.0, 0.02, 0.08])
     if sc == "restore":
         from . import state_restore
 
@@ -792,13 +822,19 @@ async def run(ctx) -> None:
 
     for name, n in sorted((k("hist_counts") or {}).items()):
         hub.count(name, n)
+    glued = ""
     for si, o in enumerate(plan.ops):
         if dead[0]:
             break
         kind = o["op"]
         where = f"op {si} ({kind}) after {n_rx} packets"
         if kind == "rx":
-            hub.rx_line(ser, o["f"])
+            if o.get("glue") and si + 1 < len(plan.ops) and plan.ops[si + 1]["op"] == "rx":
+                glued += f"045 {o['f']}\r\n"  # becomes readable together with the next frame: one read() returns both
+                n_rx += 1
+                continue
+            hub.inject(ser, (glued + f"045 {o['f']}\r\n").encode())
+            glued = ""
             if twin is not None and si not in foreign:
                 hub.rx_line(ser_t, o["f"])
             n_rx += 1
